@@ -386,7 +386,29 @@ def compare_rule(ctx, m, rep):
                     if not any(isinstance(c, alg.Cond) and ((c.rel() in ('<', '<=') and sp.sympify(c.a) == sz and sp.sympify(c.b) == other) or
                                                              (c.rel() in ('>', '>=') and sp.sympify(c.a) == other and sp.sympify(c.b) == sz)) for c in lf.pc) and not alg.is_zero(n0 - n1):
                         probs.append('memcmp length %s is not guarded as the smaller length on path %s' % (sz, lf.pc))
-        # tie-break leaves: (n0 > n1) - (n0 < n1)
+        # tie-break leaves: (n0 > n1) - (n0 < n1).  The difference of the lengths itself is no substitute once it is narrowed to the
+        # int that is returned: for lengths 2^31 or more apart the sign flips, for a multiple of 2^32 apart the result is "equal"
+        def narrowed_difference(v, depth=0):
+            d = fn.defs.get(v.v) if v.k == 'reg' else None
+            if d is None or depth > 6:
+                return None
+            if d.op in ('phi', 'select'):
+                for o in (d.ops if d.op == 'phi' else d.ops[1:]):
+                    r_ = narrowed_difference(o, depth + 1)
+                    if r_ is not None:
+                        return r_
+                return None
+            if d.op == 'trunc':
+                src = fn.defs.get(d.ops[0].v) if d.ops[0].k == 'reg' else None
+                if src is not None and src.op == 'sub' and {o.v for o in src.ops if o.k == 'reg'} == {fn.params[1][1], fn.params[3][1]}:
+                    return d
+            return None
+        for i_ in fn.instrs():
+            if i_.op == 'ret' and i_.ops:
+                nd = narrowed_difference(i_.ops[0])
+                if nd is not None:
+                    probs.append('equal prefixes are ordered by the difference of the lengths narrowed to %d bits: wrong sign for lengths 2^%d or more apart, '
+                                 '"equal" for lengths a multiple of 2^%d apart' % (nd.ty.a, nd.ty.a - 1, nd.ty.a))
         if not saw_mem:
             probs.append('no memcmp on the common prefix')
         if probs:
